@@ -62,7 +62,7 @@ def finish_positions(tr, ep):
         if r.kind == "app" and r.ep == ep:
             if r.what == "open" and r.args[1] in ("bidi", "uni", "peer-bidi"):
                 last[int(r.args[0])] = r.idx
-            elif r.what == "write":
+            elif r.what in ("write", "wbegin"):
                 if int(r.args[0]) not in placed:
                     last[int(r.args[0])] = r.idx
             elif r.what == "finish":
@@ -88,6 +88,7 @@ def ops_for(tr, ep):
         tp.get("initial_max_stream_data_bidi_remote", 0), tp.get("initial_max_stream_data_uni", 0),
         tp.get("initial_max_streams_bidi", 0), tp.get("initial_max_streams_uni", 0), ep))
     fin_at = finish_positions(tr, ep)
+    offered = {}        # sid -> bytes offered to the write API so far
     # address of this endpoint on the simulated wire: the first datagram is the client's
     client_addr = next((w.src for w in tr.recs if w.kind == "wire"), None)
     close_pn = None
@@ -109,9 +110,15 @@ def ops_for(tr, ep):
         elif r.kind == "app" and r.ep == ep:
             if r.what == "open" and r.args[1] in ("bidi", "uni"):
                 ops.append(f"app open {r.args[0]}")
-            elif r.what == "write":
+            elif r.what == "wbegin":
+                # bytes OFFERED to the write API (logged before the call; the call may resolve only after part of
+                # the data is already on the wire): the application's byte string grows to off + n
                 sid = int(r.args[0])
-                ops.append(f"app write {sid} {r.args[2]} {stream_key(seed, sid, ep == 's')}")
+                top = int(r.args[1]) + int(r.args[2])
+                delta = top - offered.get(sid, 0)
+                if delta > 0:
+                    offered[sid] = top
+                    ops.append(f"app write {sid} {delta} {stream_key(seed, sid, ep == 's')}")
             elif r.what == "reset":
                 ops.append(f"app reset {r.args[0]}")
             for sid in fin_at.get(r.idx, ()):
